@@ -140,6 +140,10 @@ func report(opt *Options, w *World, results []*ObResult, t0 time.Time) int {
 		for _, u := range r.UnwindHits {
 			fmt.Printf("      unwind: %s\n", trunc(u, 300))
 		}
+		for _, u := range r.Disagree {
+			fmt.Printf("ENGINE-ERROR property=%s solver disagreement: %s\n", opt.Property, u)
+			engineErr = true
+		}
 		for _, v := range r.Violations {
 			fmt.Printf("      candidate %s %s at %s %s\n", v.Kind, v.Label, v.Site, trunc(v.Msg, 200))
 			if opt.Debug {
